@@ -143,6 +143,9 @@ struct ThetaSetAd {
     I x(DEFAULT_SEED, al); x.update(b); x.update(t); S in = x.get_result();
     N n(DEFAULT_SEED, al); S df = n.compute(t, b);
     U u = typename U::builder(al).set_lg_k(5).build(); u.update(df); u.update(in); u.update(b);
+    { // the operand once more as a wrapped (not owning) compact sketch over its serialized image
+      auto img = b.serialize(); auto w = wrapped_compact_theta_sketch_alloc<A>::wrap(img.data(), img.size());
+      u.update(w); I y(DEFAULT_SEED, al); y.update(w); y.update(b); (void)y.get_result().get_estimate(); }
     t = u.get_result();
   }
   static void merge_move(S& t, S&& b) {
@@ -498,6 +501,50 @@ struct BloomAd {
   static void image(const S& s, Bytes& out) { put(out, s.serialize()); put_pod(out, s.get_capacity()); }
 };
 
+// ---------------------------------------------------------------- Bloom filter in every OWNERSHIP kind
+// Objects of one slot type, bloom_filter_alloc<A>, that own their bit array (builder / deserialize), live in caller memory
+// (initialize_by_size), are writable views (writable_wrap) or read-only views (wrap) of a caller-held image - all with the
+// same number of bits, so that every pairing of kinds occurs as source and target of copy / move construction and
+// assignment.  Which kind an object has is decided by the LAST Mutate: few -> caller memory, many -> writable view, alt ->
+// read-only view; Construct / Reset / merges give owned objects.  The content stays a function of the history term.
+// A view shares the caller's memory with its copies BY DESIGN (documented: the filter does not take ownership), which is
+// aliasing, not value semantics; so the adapter never writes THROUGH an existing view: a Mutate builds the new content in a
+// fresh object over a fresh caller buffer and assigns it, merge / reset first replace a not-owned target by an owned copy.
+// The caller's buffers are static (never the library's to release: a deallocate of one shows as block id 0).
+struct BloomViewAd {
+  typedef track_alloc<uint8_t> A;
+  typedef bloom_filter_alloc<A> S;
+  static const char* name() { return "bloomview"; }
+  enum { BITS = 512, NBUF = 64, BUFSZ = 256 };
+  static uint8_t* fresh() { static uint8_t pool[NBUF][BUFSZ]; static unsigned n = 0; return pool[n++ % NBUF]; }
+  static S make(int aid) { return S::builder::create_by_size(BITS, 3, 0x5eedULL, A(aid)); }
+  static void own(S& s) { if (!s.is_memory_owned()) { auto img = s.serialize(); s = S::deserialize(img.data(), img.size(), A(7)); } }
+  static void construct(void* p, int aid) { new (p) S(make(aid)); }
+  static void mutate(S& s, int op) {
+    uint8_t* buf = fresh();
+    if (op == 0) {            // a filter initialised in the caller's memory takes the place of s (move assignment)
+      S t = S::builder::initialize_by_size(buf, BUFSZ, BITS, 3, 0x5eedULL, A(8));
+      t.union_with(s);
+      for (int v : stream(0, 0)) t.update((uint64_t)v);
+      s = std::move(t);
+    } else {                  // the new content is serialized into the caller's buffer and s becomes a view of it
+      S t = make(8);
+      t.union_with(s);
+      for (int v : stream(op, 60)) t.update((uint64_t)v);
+      auto img = t.serialize();
+      memcpy(buf, img.data(), img.size());
+      if (op == 1) s = S::writable_wrap(buf, img.size(), A(8));     // move assignment from a writable view
+      else s = S::wrap(buf, img.size(), A(8));                      // wrap() returns a const object: copy assignment from a read-only view
+    }
+  }
+  template<class B> static void merge(S& a, B& b) { own(a); a.union_with(b); }
+  static void merge_move(S& a, S&& b) { own(a); a.union_with(b); S sink(std::move(b)); }
+  static void reset(S& s, int aid) { if (s.is_memory_owned()) s.reset(); else s = make(aid); }
+  static void serialize(const S& s) { auto b = s.serialize(); fixed_ostream ss; s.serialize(ss);
+    { auto d = S::deserialize(b.data(), b.size(), A(7)); (void)d.get_bits_used(); } }
+  static void image(const S& s, Bytes& out) { put(out, s.serialize()); put_pod(out, s.get_capacity()); put_pod(out, (int)s.is_empty()); }
+};
+
 // ---------------------------------------------------------------- count-min
 struct CountMinAd {
   typedef track_alloc<uint64_t> A;
@@ -561,5 +608,5 @@ struct DensityAd {
 
 #define LIFE_FAMILY_TABLE \
   FAM(ThetaAd), FAM(ThetaSetAd), FAM(KllAd), FAM(ReqAd), FAM(FiAd), FAM(HllAd), FAM(HllUnionAd), FAM(CpcAd), FAM(CpcUnionAd), \
-  FAM(TupleAd), FAM(TupleSetAd), FAM(QuantAd), FAM(VarOptAd), FAM(VarOptUnionAd), FAM(EbppsAd), FAM(BloomAd), FAM(CountMinAd), \
+  FAM(TupleAd), FAM(TupleSetAd), FAM(QuantAd), FAM(VarOptAd), FAM(VarOptUnionAd), FAM(EbppsAd), FAM(BloomAd), FAM(BloomViewAd), FAM(CountMinAd), \
   FAM(TDigestAd), FAM(DensityAd)
